@@ -731,9 +731,10 @@ theorem initAll_step (env : Env) (hq : Quiet env) (i p : Nat) (is : List Nat) : 
   | cons j is ih =>
     intro σ evs
     simp only [initAll]
+    have h2 := (call_step env hq i p σ j .write).trans (call_step env hq i p (call env σ j .write).σ j .init)
     split
-    · exact call_step env hq i p σ j .init
-    · exact (call_step env hq i p σ j .init).trans (ih _ _)
+    · exact h2
+    · exact h2.trans (ih _ _)
 
 theorem readAll_step (env : Env) (hq : Quiet env) (i p : Nat) (es : List Entry) : ∀ σ evs,
     Step i p σ (readAll env es σ evs).σ := by
